@@ -70,8 +70,10 @@ fn main() {
                 }};
             }
             let (mut code, mut ev) = with_prop!(id, go!());
-            if id == "C04" && code == 0 && (tier == Tier::Thorough || std::env::var("RV_FUZZ").is_ok()) {
-                let runs: u64 = std::env::var("RV_FUZZ_RUNS").ok().and_then(|s| s.parse().ok()).unwrap_or(if tier == Tier::Thorough { 150_000 } else { 20_000 });
+            let fuzzable = ["C01", "C03", "C04", "C08", "C10", "C13", "C20"].contains(&id);
+            if fuzzable && code == 0 && (tier == Tier::Thorough || std::env::var("RV_FUZZ").is_ok()) {
+                let default_runs = if id == "C04" { 150_000 } else { 60_000 };
+                let runs: u64 = std::env::var("RV_FUZZ_RUNS").ok().and_then(|s| s.parse().ok()).unwrap_or(if tier == Tier::Thorough { default_runs } else { 20_000 });
                 let (c2, fz) = fuzz_stage(id, seed, runs, 16);
                 if let Some(c) = ev.get_mut("coverage") {
                     c["fuzz_stage"] = fz;
